@@ -22,7 +22,54 @@ def prio(client, name):
     return (bool(u.privileged), name in client.settings.users.friends, u.status in (UserStatus.ONLINE, UserStatus.AWAY))
 
 
+async def requeued_upload_is_started_again(tmp):
+    """History for the liveness clause: one slot, one queued upload of an eligible user; the management job is idle (waiting for a
+    request) when the first attempt fails to reach the peer and the upload goes back to QUEUED inside its own task.  The slot is free and
+    the user eligible, so a second attempt has to start without any further outside event."""
+    from aioslsk.exceptions import PeerConnectionError
+    from unittest.mock import AsyncMock
+    client = make_client(tmp)
+    tm = client.transfers
+    client.settings.transfers.limits.upload_slots = 1
+    attempts = []
+
+    async def send_peer_messages(username, *msgs):
+        attempts.append(username)
+        await asyncio.sleep(0.6)            # longer than the job's pause between two runs: the job is back in queue.get()
+        if len(attempts) == 1:
+            raise PeerConnectionError('no route to the peer')
+        await asyncio.sleep(1000)
+    tm._network = MagicMock()
+    tm._network.send_peer_messages = send_peer_messages
+    tm._user_manager._network = MagicMock()
+    tm._user_manager._network.send_server_messages = AsyncMock()
+    t = Transfer('bob', 'f.mp3', TransferDirection.UPLOAD)
+    t.state = ST.QueuedState(t)
+    t.state_listeners.append(tm)
+    tm._transfers = [t]
+    tm._management_task.start()
+    try:
+        tm.request_management_cycle([f for f in type(tm._management_flags) if f.name == 'TRANSFER_CHANGE'][0])
+        await asyncio.sleep(3.0)
+        if len(attempts) == 1 and t.state.VALUE.name == 'QUEUED' and not t.get_tasks():
+            return True, ('a queued upload of an eligible user is not started although a slot is free: after the first attempt failed to reach the peer '
+                          '(upload back to QUEUED inside its task) no management cycle looked at it again for 2 s; no request is pending'), \
+                {'upload_slots': 1, 'history': ['queue upload bob/f.mp3', 'cycle starts it', 'job idle', 'send_peer_messages raises PeerConnectionError', 'wait 2 s'],
+                 'attempts': len(attempts), 'state': t.state.VALUE.name, 'pending_flags': int(tm._management_flags.value), 'queue_size': tm._management_queue.qsize()}
+    finally:
+        task = tm._management_task.cancel()
+        for tk in [task] + t.get_tasks():
+            if tk is not None:
+                tk.cancel()
+        await asyncio.sleep(0)
+    return False, '', None
+
+
 async def main():
+    with tempfile.TemporaryDirectory() as tmp0:
+        c0, what0, inp0 = await requeued_upload_is_started_again(tmp0)
+        if c0:
+            return c0, what0, inp0
     rnd = random.Random(int(os.environ.get('VERIF_SEED', '0') or 0))
     with tempfile.TemporaryDirectory() as tmp:
         for trial in range(300):
